@@ -178,6 +178,9 @@ type client struct {
 	// inFlight is number of rpcs sent to regionserver awaiting response
 	inFlightM sync.Mutex // protects inFlight and SetReadDeadline
 	inFlight  uint32
+	// earlyResponses is the number of responses that were received before
+	// the sender of their request got to count it as in flight
+	earlyResponses uint32
 
 	// writeM serializes the writing of whole frames to conn. Frames are
 	// written concurrently by the batching goroutine and by callers of
@@ -260,6 +263,12 @@ func (c *client) String() string {
 
 func (c *client) inFlightUp() error {
 	c.inFlightM.Lock()
+	if c.earlyResponses > 0 {
+		// the response to this request has been received already
+		c.earlyResponses--
+		c.inFlightM.Unlock()
+		return nil
+	}
 	c.inFlight++
 	// we expect that at least the last request can be completed within readTimeout
 	if err := c.conn.SetReadDeadline(time.Now().Add(c.readTimeout)); err != nil {
@@ -272,6 +281,16 @@ func (c *client) inFlightUp() error {
 
 func (c *client) inFlightDown() error {
 	c.inFlightM.Lock()
+	if c.inFlight == 0 {
+		// The response arrived before the goroutine that sent the request
+		// called inFlightUp (it does so after writing the request). Don't
+		// let the counter wrap: inFlightUp would then bring it back to zero
+		// and arm a read deadline with nothing outstanding, and the idle
+		// connection would be closed when that deadline expires.
+		c.earlyResponses++
+		c.inFlightM.Unlock()
+		return nil
+	}
 	c.inFlight--
 	// reset read timeout if we are not waiting for any responses
 	// in order to prevent from closing this client if there are no request
